@@ -649,6 +649,7 @@ func (m *machine) runPath(it pendingItem) {
 	m.reached, m.observed, m.observeT, m.observeS = nil, nil, nil, nil
 	m.openFiles = nil
 	m.zipContents = nil
+	m.fileContents, m.fileState = nil, nil
 	m.dom, m.entangled, m.allEntangled = map[string]*dom8{}, map[string]bool{}, false
 	m.model, m.modelOK = nil, false
 	if it.model != nil {
